@@ -379,6 +379,13 @@ def run_history(mon, base, hid, steps, names, sh, snapshots_out=None):
     src = os.path.join(root, "src")
     for d in (layers, os.path.join(root, "app"), os.path.join(root, "bp"), src):
         os.makedirs(d)
+    # the layers directory as the platform names it: plainly, through a symbolic link, or with '.' / '..' segments
+    style = sum(map(ord, str(hid))) % 3
+    if style == 0:
+        os.symlink("layers", os.path.join(root, "layers-link"))
+        layers = os.path.join(root, "layers-link")
+    elif style == 1:
+        layers = os.path.join(root, "app", "..", ".", "layers")
     for p in ("p1", "p2", "p3"):
         with open(os.path.join(src, p), "wb") as f:
             f.write(b"#!/bin/sh\necho " + p.encode() + b"\n")
